@@ -139,8 +139,31 @@ def shrink(prop, seed, scn, choices, v, budget=250, wall=60.0):
                 best_res = res
                 progress = True
                 break
-    # --- phase 2: choice log (chunk deletion, then zeroing)
+    # --- phase 2: choice log: shortest failing prefix first (what follows is all zeros =
+    # first enabled actor / no fault), then chunk deletion, then zeroing
     ch = list(best[1])
+    if b.ok():
+        lo, hi = 0, len(ch)
+        b.use()
+        res = _run(prop, seed, best[0], [])
+        if _same(res, v):
+            hi = 0
+            best_res = res
+        while hi - lo > 1 and b.ok():
+            mid = (lo + hi) // 2
+            b.use()
+            res = _run(prop, seed, best[0], ch[:mid])
+            if _same(res, v):
+                hi = mid
+                best_res = res
+            else:
+                lo = mid
+        if hi < len(ch):
+            b.use()
+            res = _run(prop, seed, best[0], ch[:hi])
+            if _same(res, v):
+                ch = ch[:hi]
+                best_res = res
     size = max(len(ch) // 2, 1)
     while size >= 1 and b.ok():
         i = 0
